@@ -240,6 +240,13 @@ var c20Marshalled []byte
 func vStub_yaml_Marshal(in interface{}) ([]byte, error) {
 	b := vBytes("yaml.doc", 400)
 	vAssume(len(b) >= 1)
+	// an account document records its login (so a file whose content names another login is detectable)
+	switch a := in.(type) {
+	case *hotline.Account:
+		b = append([]byte("Login: "+a.Login+"\n"), b...)
+	case hotline.Account:
+		b = append([]byte("Login: "+a.Login+"\n"), b...)
+	}
 	c20Marshalled = b
 	return b, nil
 }
